@@ -276,15 +276,17 @@ func (c *compiler) UnaryNode(node *ast.UnaryNode) {
 func (c *compiler) BinaryNode(node *ast.BinaryNode) {
 	l := kind(node.Left)
 	r := kind(node.Right)
+	// The specialised comparisons assert the predeclared types int and string.
+	simple := isSimpleType(node.Left) && isSimpleType(node.Right)
 
 	switch node.Operator {
 	case "==":
 		c.compile(node.Left)
 		c.compile(node.Right)
 
-		if l == r && l == reflect.Int {
+		if simple && l == r && l == reflect.Int {
 			c.emit(OpEqualInt)
-		} else if l == r && l == reflect.String {
+		} else if simple && l == r && l == reflect.String {
 			c.emit(OpEqualString)
 		} else {
 			c.emit(OpEqual)
@@ -669,6 +671,11 @@ func encode(i uint16) []byte {
 	b := make([]byte, 2)
 	binary.LittleEndian.PutUint16(b, i)
 	return b
+}
+
+func isSimpleType(node ast.Node) bool {
+	t := node.Type()
+	return t != nil && t.PkgPath() == ""
 }
 
 func kind(node ast.Node) reflect.Kind {
